@@ -88,6 +88,28 @@ mod verif_battery_c04_mac {
 '''
 
 
+def check_skip_sig_wrapper(rep, ctx):
+    """the exemption the handler asks for (HttpConnectionContext::should_skip_sig) is hyper_client::should_skip_sig of the context's own
+    method and url, and the handler builds that context from THIS request's method and uri"""
+    from p_c08 import derives
+    try:
+        w = ctx.method("HttpConnectionContext", "should_skip_sig")
+    except Inconclusive as ex:
+        rep.add(Query("HttpConnectionContext::should_skip_sig located", "inconclusive", str(ex), 0, "mirsym", key="C04.skip-wrapper"))
+        return
+    fm, fu = ctx.field("HttpConnectionContext", "method"), ctx.field("HttpConnectionContext", "url")
+    eng = ctx.engine()
+    ok, n = True, 0
+    for r in eng.explore(w):
+        n += 1
+        me = origin(r.args[0]).child("*")
+        c = [e for e in r.events if e.kind == "call" and e.callee.endswith("should_skip_sig")]
+        good = r.status == "return" and len(c) == 1 and derives(c[0].rargs[0], me.child(("f", fm)), r.events) and derives(c[0].rargs[1], me.child(("f", fu)), r.events) and (r.ret is c[0].ret or same_origin(r.ret, c[0].ret))
+        ok = ok and good
+    rep.functions_encoded.append(w)
+    rep.add(Query("HttpConnectionContext::should_skip_sig = hyper_client::should_skip_sig(own method, own url)", "holds" if ok and n else "violated", "%d paths" % n, 0, "mirsym", key="C04.skip-wrapper", reproduced=None))
+
+
 def check(rep, tier, seed):
     ctx = Ctx("agent")
     rep.extra["mir_dump"] = {"cache_hit": ctx.dump.cache_hit, "tree_hash": ctx.dump.hash, "seconds": round(ctx.dump.seconds, 1)}
@@ -211,6 +233,7 @@ def check(rep, tier, seed):
     rep.bounds["build_request"] = "header loop bound 2 (<=2 caller headers); %d paths" % len(rb)
     check_canonicalisers(rep, ctx, tier)
     check_mac_unit(rep, ctx)
+    check_skip_sig_wrapper(rep, ctx)
     import p_c02
     p_c02.check_query_pairs(rep, ctx, "C04")          # both canonicalisers see the query through it
     import batteries
